@@ -492,7 +492,13 @@ func (r *Runner) Step(op Op) *Violation {
 			return nil
 		}
 		// ---- rotation trigger rule
-		if wasOpen && !wasUnsure {
+		// (a sink that notices on its own that its file was renamed away and starts a new one has not "rotated":
+		// the outside party did; the statements only say what happens after the following Reopen)
+		replacedMoved := wasExtRen && len(created) > 0
+		if replacedMoved {
+			rotated = false
+		}
+		if wasOpen && !wasUnsure && !replacedMoved {
 			sizeTrig := c.MaxBytes > 0 && r.since >= c.MaxBytes
 			mustTime, mustNotTime := false, true
 			if c.MaxDurMs > 0 {
@@ -534,7 +540,7 @@ func (r *Runner) Step(op Op) *Violation {
 				r.Sum.CertainTimeNoRot++
 			}
 		}
-		if !r.rotateEnabled() && wasOpen && !wasUnsure && len(created) > 0 {
+		if !r.rotateEnabled() && wasOpen && !wasUnsure && len(created) > 0 && !replacedMoved {
 			return &Violation{"C15", fmt.Sprintf("a new file %s appeared although neither MaxBytes nor MaxDuration is set", names(created))}
 		}
 		// ---- retention count right after a rotation
